@@ -71,7 +71,10 @@ class TranslatorPython(Translator):
                     (1 << expr.size) - 1
                 )
         elif expr.op == "parity":
-            return "(%s & 0x1)" % self.from_expr(expr.args[0])
+            # Even parity of the low byte: fold the byte on 4 bits and look
+            # up the parity of the nibble in the 16 bits constant 0x9669
+            arg = self.from_expr(expr.args[0])
+            return "((0x9669 >> (((%s) ^ ((%s) >> 4)) & 0xf)) & 0x1)" % (arg, arg)
         elif expr.op == "==":
             return self.from_expr(
                 ExprCond(expr.args[0] - expr.args[1], ExprInt(0, 1), ExprInt(1, 1))
